@@ -9,10 +9,11 @@ import (
 )
 
 func updatePoolFromQueue(coreIndex types.CoreIndex, eg types.ReportGuarantee, alpha types.AuthPools) (types.AuthPools, error) {
-	pool := alpha[coreIndex]
-	if pool == nil {
-		return nil, fmt.Errorf("alpha[%d] is nil", coreIndex)
+	if int(coreIndex) >= len(alpha) {
+		return nil, fmt.Errorf("core index %d out of range of alpha (%d pools)", coreIndex, len(alpha))
 	}
+	// An empty pool may be a nil slice (the decoder yields nil for length 0): it is still a pool.
+	pool := alpha[coreIndex]
 
 	// (8.3)   remove (g_r)a from α[c]（leftmost match）
 	authHashToRemoved := eg.Report.AuthorizerHash
